@@ -62,6 +62,7 @@ type runOut struct {
 	WallS      float64             `json:"wall_s"`
 	Kind       string              `json:"kind"`
 	Note       string              `json:"note,omitempty"`
+	AllOutcomes []string           `json:"all_outcomes,omitempty"`
 }
 
 func findJob(name string) *scen.Job {
@@ -197,6 +198,9 @@ func runJob(j *scen.Job, tier string, boundOv, budgetOv int) *runOut {
 	if len(ks) > 6 {
 		ks = ks[:6]
 	}
+	if j.DumpOutcomes {
+		ro.AllOutcomes = sortedOutcomes(rep.Outcomes)
+	}
 	ro.OutcomeSample = ks
 	ro.BoundDone = -1
 	ro.Complete = true
@@ -305,4 +309,13 @@ func replayFile(file string) int {
 	}
 	fmt.Println("recorded violation did not reproduce")
 	return 0
+}
+
+func sortedOutcomes(m map[string]int64) []string {
+	ks := make([]string, 0, len(m))
+	for k := range m {
+		ks = append(ks, k)
+	}
+	sort.Strings(ks)
+	return ks
 }
